@@ -464,6 +464,18 @@ func main() {
 		"db.getMemTables()", "tables[i].sl.Get(key)", "db.lc.get(key"), "db.go:DB.get [memtables picked and searched before the levels]"})
 	facts = append(facts, fact{"ord_flusher_l0_imm", "op", ascending("db.go", "DB", "flushMemtable",
 		"db.handleMemTableFlush(mt, nil)", "db.imm = db.imm[1:]"), "db.go:DB.flushMemtable [L0 table published before the memtable leaves db.imm]"})
+	// C34: where the commit watermark is moved outside newCommitTs/doneCommit: Open marks MaxVersion
+	// done and THEN increments the next timestamp; Load marks nextTxnTs-1 (the last loaded version),
+	// never the next timestamp itself (seed C34f)
+	facts = append(facts, fact{"has_load_txnmark_prev", "op", has("backup.go", "DB", "Load", "db.orc.txnMark.Done(db.orc.nextTxnTs - 1)"), "backup.go:DB.Load [txnMark.Done(nextTxnTs - 1)]"})
+	facts = append(facts, fact{"ord_open_marks_increment", "op", ascending("db.go", "", "Open",
+		"db.orc.nextTxnTs = db.MaxVersion()", "db.orc.txnMark.Done(db.orc.nextTxnTs)", "db.orc.readMark.Done(db.orc.nextTxnTs)", "db.orc.incrementNextTs()"), "db.go:Open [MaxVersion, both marks done, then increment]"})
+	// C38: value-log GC releases filesLock before it takes the file's own lock in deleteLogFile
+	// (a reader inside Item.Value holds the file's read lock and may need filesLock for a second
+	// read: seed C38f); no deferred unlock in rewrite
+	facts = append(facts, fact{"has_rewrite_deferred_unlock", "op", has("value.go", "valueLog", "rewrite", "defer vlog.filesLock.Unlock()"), "value.go:valueLog.rewrite [defer vlog.filesLock.Unlock()]"})
+	facts = append(facts, fact{"ord_rewrite_unlock_delete", "op", ascending("value.go", "valueLog", "rewrite",
+		"vlog.filesLock.Lock()", "delete(vlog.filesMap, f.fid)", "deleteFileNow = true", "if deleteFileNow {", "vlog.deleteLogFile(f)"), "value.go:valueLog.rewrite [decide under filesLock, delete the file after releasing it]"})
 	// Txn.Commit / commitPrecheck
 	facts = append(facts, fact{"ord_commit_steps", "op", ascending("txn.go", "Txn", "Commit",
 		"len(txn.pendingWrites) == 0", "txn.commitPrecheck()", "txn.commitAndSend()"), "txn.go:Txn.Commit [order of steps]"})
